@@ -224,8 +224,6 @@ def flowir_yaml(spec):
 
 def impl_monitor(spec, scenarios, workdir):
     """Builds a real Experiment + StatusMonitor; runs the real CheckStatus closure for each scenario."""
-    import sys
-    sys.path.insert(0, "/repo")
     import tests.utils as TU
     import experiment.runtime.output as O
     import experiment.runtime.monitor as M
